@@ -1,17 +1,41 @@
 /-
-C11 — the property as decidable predicates (first version: Part A only; extended below).
+C11 — the property as decidable predicates over (input, observed output).  The same predicates are
+(a) what the theorems state of the model and (b) what the driver evaluates on the
+implementation's output (`SubstSpec`, `BuildSpec`, `FinderSpec` pieces, `PipeSpec`).
 -/
 import FaxVerif.C11.Model
 namespace FaxVerif.C11
 
+/-! ## vocabulary -/
+
+/-- every character of `l` is of kind `k` (`true` = word character) -/
+def AllW (W : Char → Bool) (k : Bool) (l : Str) : Prop := ∀ c ∈ l, W c = k
+/-- `l` is empty or starts with a character of kind `k` -/
+def HeadIs (W : Char → Bool) (k : Bool) (l : Str) : Prop := ∀ c, l.head? = some c → W c = k
+/-- `l` is empty or ends with a character of kind `k` -/
+def LastIs (W : Char → Bool) (k : Bool) (l : Str) : Prop := ∀ c, l.getLast? = some c → W c = k
+
+/-- a token is a non-empty run of characters of its own kind -/
+def TokOk (W : Char → Bool) (t : Tok) : Prop := t.text ≠ [] ∧ AllW W t.isWord t.text
+
+/-- neighbouring tokens are of different kinds (the runs are maximal) -/
+def Alternating : List Tok → Prop
+  | [] => True
+  | [_] => True
+  | a :: b :: r => a.isWord ≠ b.isWord ∧ Alternating (b :: r)
+
 /-- a non-empty run of word characters: what a formal parameter name has to be -/
 def isWordStr (W : Char → Bool) (s : Str) : Bool := !s.isEmpty && s.all W
 
-/-- precondition on the replacement list: every source name is a word -/
+/-- precondition on a replacement list: every source name is a word -/
 def WordNames (W : Char → Bool) (ps : List Binding) : Prop := ∀ p ∈ ps, isWordStr W p.1 = true
 
 instance (W : Char → Bool) (ps : List Binding) : Decidable (WordNames W ps) := by
   unfold WordNames; exact inferInstance
+
+def keys (ps : List Binding) : List Str := ps.map (·.1)
+
+/-! ## Part A — substitution -/
 
 /-- The substitution clause of the property: the observed line is the simultaneous whole-word
 substitution of the template line. -/
@@ -20,5 +44,227 @@ def SubstSpec (W : Char → Bool) (ps : List Binding) (line out : Str) : Prop :=
 
 instance (W : Char → Bool) (ps : List Binding) (line out : Str) : Decidable (SubstSpec W ps line out) := by
   unfold SubstSpec; exact inferInstance
+
+/-! ## Part B — which calls are accepted -/
+
+def isOk {ε α} : Except ε α → Bool
+  | .ok _ => true
+  | .error _ => false
+
+/-- A handler accepts a call exactly when the number of arguments is the declared one and the
+call style is the declared one (function: `f(...)`; method: `r.f(...)`). The built-in
+`isNonnull` only counts its arguments; `getAttribute` refuses everything. -/
+def handlerAcceptsS (h : Handler) (sh : Shape) (n : Nat) : Bool :=
+  match h with
+  | .spec s => n == s.args.length &&
+      (match sh, s.methodObject with
+       | .name _, none => true
+       | .attrName _ _, some _ => true
+       | _, _ => false)
+  | .nonnull => n == 1
+  | .refuse => false
+
+def BuildAccepts (spec : FSpec) (f : Expr) (args : List Expr) : Bool :=
+  handlerAcceptsS (.spec spec) (shape f) args.length
+
+/-- the receiver binding a successful build records: (method-object word, receiver's Python name) -/
+def expectedInstance (spec : FSpec) (f : Expr) : Option (Str × Str) :=
+  match shape f, spec.methodObject with
+  | .attrName r _, some mo => some (mo, r)
+  | _, _ => none
+
+/-! ## Part C — call sites -/
+
+mutual
+/-- every call site the finder recognises is accepted by its handler -/
+def SitesOk (tbl : Table) : Expr → Bool
+  | .name _ => true
+  | .const _ => true
+  | .opaque _ => true
+  | .attr o _ => SitesOk tbl o
+  | .binop _ l r => SitesOk tbl l && SitesOk tbl r
+  | .cpp _ args => SitesOkList tbl args
+  | .call f args => SitesOk tbl f && SitesOkList tbl args &&
+      (match (calleeKey f).bind tbl.get? with
+       | none => true
+       | some h => handlerAcceptsS h (shape f) args.length)
+def SitesOkList (tbl : Table) : List Expr → Bool
+  | [] => true
+  | e :: es => SitesOk tbl e && SitesOkList tbl es
+end
+
+/-- the name a call is made under, whatever the receiver is (what the property means by "every call") -/
+def calleeNameFull (f : Expr) : Option Str :=
+  match shape f with
+  | .name n => some n
+  | .attrName _ a => some a
+  | .attrOther a => some a
+  | .other => none
+
+mutual
+/-- no call to a name of the table is left in the expression -/
+def NoPendingFull (tbl : Table) : Expr → Bool
+  | .name _ => true
+  | .const _ => true
+  | .opaque _ => true
+  | .attr o _ => NoPendingFull tbl o
+  | .binop _ l r => NoPendingFull tbl l && NoPendingFull tbl r
+  | .cpp _ args => NoPendingFullList tbl args
+  | .call f args => NoPendingFull tbl f && NoPendingFullList tbl args &&
+      ((calleeNameFull f).bind tbl.get?).isNone
+def NoPendingFullList (tbl : Table) : List Expr → Bool
+  | [] => true
+  | e :: es => NoPendingFull tbl e && NoPendingFullList tbl es
+end
+
+mutual
+/-- defect exclusion: no method-style call to a name of the table on a receiver that is not a
+plain name -/
+def ReceiverPlain (tbl : Table) : Expr → Bool
+  | .name _ => true
+  | .const _ => true
+  | .opaque _ => true
+  | .attr o _ => ReceiverPlain tbl o
+  | .binop _ l r => ReceiverPlain tbl l && ReceiverPlain tbl r
+  | .cpp _ args => ReceiverPlainList tbl args
+  | .call f args => ReceiverPlain tbl f && ReceiverPlainList tbl args &&
+      (match shape f with
+       | .attrOther a => (tbl.get? a).isNone
+       | _ => true)
+def ReceiverPlainList (tbl : Table) : List Expr → Bool
+  | [] => true
+  | e :: es => ReceiverPlain tbl e && ReceiverPlainList tbl es
+end
+
+/-! ## Part D — the emitted block structure -/
+
+def declName : Item → Option Str
+  | .decl _ n => some n
+  | _ => none
+
+/-- what the property demands of the lines of the block: each template line with receiver and
+parameters substituted simultaneously as whole words -/
+def expectedLines (W : Char → Bool) (cv : CodeValue) (recv : Option Str) (texts : List Str) : List Str :=
+  cv.code.map (fun l => withSemi (substSim W (replList cv recv texts) l))
+
+mutual
+/-- Explain the observed blocks (`bs`, in emission order) by the call tree `e`: arguments first,
+left to right, then the call's own block, which must consist of the substituted template lines
+followed by the assignment of the result name to a variable that is declared in the enclosing
+block (`decls`) with the declared type; the include files must be present (`incl`).
+Returns the C++ text `e` stands for and the blocks not yet explained. -/
+def check (W : Char → Bool) (env : Env) (decls : List Item) (incl : List Str) :
+    Expr → List Item → Option (Str × List Item)
+  | .opaque t, bs => some (t, bs)
+  | .const t, bs => some (t, bs)
+  | .name id, bs =>
+    match env.get? id with
+    | some t => some (t, bs)
+    | none => none
+  | .attr _ _, _ => none
+  | .call _ _, _ => none
+  | .binop _ _ _, _ => none
+  | .cpp cv args, bs =>
+    match recvOf env cv with
+    | none => none
+    | some recv =>
+      match checkList W env decls incl args bs with
+      | none => none
+      | some (texts, bs1) =>
+        match bs1 with
+        | .block lines lhs rhs :: bs2 =>
+          if rhs = cv.result ∧ Item.decl (declType cv) lhs ∈ decls ∧
+              lines = expectedLines W cv recv texts ∧ (∀ i ∈ cv.includes, i ∈ incl)
+          then some (lhs, bs2) else none
+        | _ => none
+def checkList (W : Char → Bool) (env : Env) (decls : List Item) (incl : List Str) :
+    List Expr → List Item → Option (List Str × List Item)
+  | [], bs => some ([], bs)
+  | e :: es, bs =>
+    match check W env decls incl e bs with
+    | none => none
+    | some (t, bs1) =>
+      match checkList W env decls incl es bs1 with
+      | none => none
+      | some (ts, bs2) => some (t :: ts, bs2)
+end
+
+/-- The block-structure clause of the property for a whole list of columns (call trees after
+the finder): the statements of the enclosing block are exactly the blocks of the call sites in
+evaluation order, each as demanded by `check`; the column texts are the result variables;
+the declared names are pairwise distinct (fresh variables). -/
+def PipeSpec (W : Char → Bool) (env : Env) (cols : List Expr) (b : Body) : Prop :=
+  checkList W env b.decls b.includes cols b.stmts = some (b.cols, []) ∧
+  (b.decls.filterMap declName).Nodup
+
+instance (W : Char → Bool) (env : Env) (cols : List Expr) (b : Body) : Decidable (PipeSpec W env cols b) := by
+  unfold PipeSpec; exact inferInstance
+
+/-! ### well-formedness of what the finder hands to the emission -/
+
+def cvWellFormed (W : Char → Bool) (cv : CodeValue) : Bool :=
+  cv.args.all (isWordStr W) &&
+  (match cv.instance_ with
+   | some (mo, _) => isWordStr W mo
+   | none => true)
+
+/-- defect exclusion for freshness: `unique_name` glues the index to the prefix without a
+separator, so a prefix must not end in a digit -/
+def noDigitEnd (p : Str) : Bool :=
+  match p.getLast? with
+  | some c => !c.isDigit
+  | none => false
+
+mutual
+def WF (W : Char → Bool) : Expr → Bool
+  | .name _ => true
+  | .const _ => true
+  | .opaque _ => true
+  | .attr o _ => WF W o
+  | .binop _ l r => WF W l && WF W r
+  | .call f args => WF W f && WFList W args
+  | .cpp cv args => cvWellFormed W cv && WFList W args
+def WFList (W : Char → Bool) : List Expr → Bool
+  | [] => true
+  | e :: es => WF W e && WFList W es
+end
+
+mutual
+def PrefixOk : Expr → Bool
+  | .name _ => true
+  | .const _ => true
+  | .opaque _ => true
+  | .attr o _ => PrefixOk o
+  | .binop _ l r => PrefixOk l && PrefixOk r
+  | .call f args => PrefixOk f && PrefixOkList args
+  | .cpp cv args => noDigitEnd cv.varPrefix && PrefixOkList args
+def PrefixOkList : List Expr → Bool
+  | [] => true
+  | e :: es => PrefixOk e && PrefixOkList es
+end
+
+def specWellFormed (W : Char → Bool) (s : FSpec) : Bool :=
+  s.args.all (isWordStr W) &&
+  (match s.methodObject with
+   | some mo => isWordStr W mo
+   | none => true)
+
+/-- parameter names (and the method-object word) of whatever the handler injects are words -/
+def handlerWF (W : Char → Bool) : Handler → Bool
+  | .spec s => specWellFormed W s
+  | .nonnull => cvWellFormed W nonnullCodeValue
+  | .refuse => true
+
+def handlerPrefixOk : Handler → Bool
+  | .spec s => noDigitEnd s.name
+  | _ => true
+
+def tableWellFormed (W : Char → Bool) : Table → Bool
+  | [] => true
+  | (_, h) :: t => handlerWF W h && tableWellFormed W t
+
+def tablePrefixOk : Table → Bool
+  | [] => true
+  | (_, h) :: t => handlerPrefixOk h && tablePrefixOk t
 
 end FaxVerif.C11
